@@ -9,7 +9,7 @@ CONSTANTS NProcs = 3
           EmitOn = TRUE
           Sim = TRUE
 INIT Init
-NEXT Next
+NEXT NextSim
 INVARIANT TypeOk
 INVARIANT NoPartialRead
 INVARIANT NoWrongAnswer
